@@ -14,39 +14,34 @@ import OdfModel.Pkg
 namespace OdfModel.Props.C05
 open OdfModel OdfModel.Xml OdfModel.LoadSax OdfModel.Props.C04
 
-/-! ### `__fixXmlPart` -/
+/-! ### `__fixXmlPart` (as of fix 4cb8050) -/
 
-/-- every requested prefix is declared somewhere in the text with a BLANK in front of `xmlns:` -/
-def DeclaresWithSpace (x : Str) : Prop := ∀ p ∈ requested, isInfix (sXmlnsSp ++ p) x = true
+/-- the document element's start tag (up to its first `>`) declares every requested prefix, with any white space
+    in front of `xmlns:` and around `=` -/
+def DeclaresInRoot (x : Str) : Prop :=
+  ∀ e, findRootEnd x 0 = some e → ∀ p ∈ requested, declares p (rootTagText x e) = true
 
-instance (x : Str) : Decidable (DeclaresWithSpace x) := by unfold DeclaresWithSpace; infer_instance
-
-theorem foldl_fixStep_id (x : Str) (ps : List Str) (h : ∀ p ∈ ps, isInfix (sXmlnsSp ++ p) x = true) (r : Str) :
-    ps.foldl (fixStep x) r = r := by
+theorem foldl_fixStep_id (tag : Str) (e : Nat) (ps : List Str) (h : ∀ p ∈ ps, declares p tag = true) (r : Str) :
+    ps.foldl (fixStep tag e) r = r := by
   induction ps generalizing r with
   | nil => rfl
   | cons p ps ih =>
     simp only [List.foldl_cons]
-    have hp : fixStep x r p = r := by simp [fixStep, h p (by simp)]
+    have hp : fixStep tag e r p = r := by simp [fixStep, h p (by simp)]
     rw [hp]
     exact ih (fun q hq => h q (by simp [hq])) r
 
-/-- **C05 (fix_identity)**: a part that declares the nine prefixes the way the test looks for them is not touched. -/
-theorem fix_identity (x : Str) (h : DeclaresWithSpace x) : fixXmlPart x = x :=
-  foldl_fixStep_id x requested h x
+/-- **C05 (fix_identity)**: a part whose document element declares the nine prefixes is not touched — whatever
+    white space separates the declarations. -/
+theorem fix_identity (x : Str) (h : DeclaresInRoot x) : fixXmlPart x = x := by
+  unfold fixXmlPart
+  cases hr : findRootEnd x 0 with
+  | none => rfl
+  | some e => exact foldl_fixStep_id _ e requested (h e hr) x
 
-/-- … and a part without any `" xmlns:"` is not touched either (`index` raises, `except: pass`): this is why
-    declarations that are ALL separated by newlines are accidentally fine -/
-theorem fix_no_anchor (x : Str) (h : indexOf sXmlnsSp x = none) : fixXmlPart x = x := by
-  have : ∀ (ps : List Str), ps.foldl (fixStep x) x = x := by
-    intro ps
-    induction ps with
-    | nil => rfl
-    | cons p ps ih =>
-      simp only [List.foldl_cons]
-      have hp : fixStep x x p = x := by unfold fixStep; split <;> simp [h]
-      rw [hp]; exact ih
-  exact this requested
+/-- a text in which no element start is found is not touched either -/
+theorem fix_no_root (x : Str) (h : findRootEnd x 0 = none) : fixXmlPart x = x := by
+  unfold fixXmlPart; rw [h]
 
 /-! #### a scanner for the attribute names of the first start tag (specification side, any XML white space) -/
 
@@ -100,36 +95,51 @@ def w1 : Str := [60, 63, 120, 109, 108, 32, 118, 101, 114, 115, 105, 111, 110, 6
 /-- `xmlns:meta` -/
 def sXmlnsMeta : Str := [120, 109, 108, 110, 115, 58, 109, 101, 116, 97]
 
-/-- **known finding KF-C05-1, proved**: in `w1` every attribute of the root tag is named once, and `xmlns:meta` is
-    declared; `__fixXmlPart` does not see the declaration (no blank in front of it) and splices a second `xmlns:meta`
-    into the same tag … -/
-theorem fix_finding_duplicate_xmlns :
-    (rootAttrNames w1).Nodup ∧ sXmlnsMeta ∈ rootAttrNames w1 ∧
-    (rootAttrNames (fixXmlPart w1)).count sXmlnsMeta = 2 ∧ ¬ (rootAttrNames (fixXmlPart w1)).Nodup := by
+/-- (was known finding KF-C05-1, repaired in 4cb8050) in `w1` — first declaration after a blank, `xmlns:meta` after
+    newline + TAB — the declaration of `meta` is now seen: the patched root tag names every attribute once, and the
+    eight prefixes that were missing are declared. -/
+theorem fix_w1_ok :
+    (rootAttrNames (fixXmlPart w1)).Nodup ∧ (rootAttrNames (fixXmlPart w1)).count sXmlnsMeta = 1 ∧
+    (rootAttrNames (fixXmlPart w1)).length = 2 + 8 := by
   decide +kernel
 
-/-- … so every conforming parser rejects the patched text, the exception is swallowed, and the part is silently
-    dropped: the document is what it was before (body empty), whatever the part contained. -/
-theorem fix_finding_part_dropped (P : Str → Option (List Event)) (hP : RejectsDuplicateRootAttr P)
-    (member : Str) (l : Loaded) : loadText P member l w1 = l := by
+/-- content.xml whose root tag has a literal `>` inside an attribute value in FRONT of the declaration of `meta` -/
+def w4 : Str := [60, 63, 120, 109, 108, 32, 118, 101, 114, 115, 105, 111, 110, 61, 39, 49, 46, 48, 39, 32, 101, 110, 99, 111, 100, 105, 110, 103, 61, 39, 85, 84, 70, 45, 56, 39, 63, 62, 10, 60, 111, 58, 100, 111, 99, 117, 109, 101, 110, 116, 45, 99, 111, 110, 116, 101, 110, 116, 32, 120, 109, 108, 110, 115, 58, 111, 61, 34, 117, 114, 110, 58, 111, 97, 115, 105, 115, 58, 110, 97, 109, 101, 115, 58, 116, 99, 58, 111, 112, 101, 110, 100, 111, 99, 117, 109, 101, 110, 116, 58, 120, 109, 108, 110, 115, 58, 111, 102, 102, 105, 99, 101, 58, 49, 46, 48, 34, 32, 120, 109, 108, 110, 115, 58, 120, 61, 34, 97, 62, 98, 34, 32, 120, 109, 108, 110, 115, 58, 109, 101, 116, 97, 61, 34, 117, 114, 110, 58, 109, 34, 62, 60, 111, 58, 98, 111, 100, 121, 62, 60, 117, 58, 112, 32, 120, 109, 108, 110, 115, 58, 117, 61, 34, 117, 34, 47, 62, 60, 47, 111, 58, 98, 111, 100, 121, 62, 60, 47, 111, 58, 100, 111, 99, 117, 109, 101, 110, 116, 45, 99, 111, 110, 116, 101, 110, 116, 62]
+
+/-- **known finding KF-C05-17, proved** (residual of 4cb8050): `w4` is a well-formed start tag (every attribute
+    named once, `xmlns:meta` declared), but the text up to the first `>` ends inside `xmlns:x="a>b"`; the
+    declaration of `meta` behind it is not seen and a second `xmlns:meta` is spliced in … -/
+theorem fix_finding_gt_in_value :
+    (rootAttrNames w4).Nodup ∧ sXmlnsMeta ∈ rootAttrNames w4 ∧
+    (rootAttrNames (fixXmlPart w4)).count sXmlnsMeta = 2 ∧ ¬ (rootAttrNames (fixXmlPart w4)).Nodup := by
+  decide +kernel
+
+/-- … so every conforming parser rejects the patched text, `__loadxmlparts` prints and swallows the exception, and
+    the part is silently dropped: the document is what it was before, whatever the part contained. -/
+theorem fix_finding_gt_part_dropped (P : Str → Option (List Event)) (hP : RejectsDuplicateRootAttr P)
+    (member : Str) (l : Loaded) : loadText P member l w4 = l := by
   unfold loadText
-  rw [hP _ fix_finding_duplicate_xmlns.2.2.2]
+  rw [hP _ fix_finding_gt_in_value.2.2.2]
 
 /-- content.xml with newline-separated declarations and the words ` xmlns:x` in a paragraph -/
 def w2 : Str := [60, 63, 120, 109, 108, 32, 118, 101, 114, 115, 105, 111, 110, 61, 39, 49, 46, 48, 39, 32, 101, 110, 99, 111, 100, 105, 110, 103, 61, 39, 85, 84, 70, 45, 56, 39, 63, 62, 10, 60, 111, 58, 100, 111, 99, 117, 109, 101, 110, 116, 45, 99, 111, 110, 116, 101, 110, 116, 10, 120, 109, 108, 110, 115, 58, 111, 61, 34, 117, 114, 110, 58, 111, 97, 115, 105, 115, 58, 110, 97, 109, 101, 115, 58, 116, 99, 58, 111, 112, 101, 110, 100, 111, 99, 117, 109, 101, 110, 116, 58, 120, 109, 108, 110, 115, 58, 111, 102, 102, 105, 99, 101, 58, 49, 46, 48, 34, 62, 60, 111, 58, 98, 111, 100, 121, 62, 60, 117, 58, 112, 10, 120, 109, 108, 110, 115, 58, 117, 61, 34, 117, 34, 62, 115, 97, 121, 32, 120, 109, 108, 110, 115, 58, 120, 60, 47, 117, 58, 112, 62, 60, 47, 111, 58, 98, 111, 100, 121, 62, 60, 47, 111, 58, 100, 111, 99, 117, 109, 101, 110, 116, 45, 99, 111, 110, 116, 101, 110, 116, 62]
 
-/-- **known finding KF-C05-2, proved**: in `w2` the first `" xmlns:"` lies in character data; `__fixXmlPart` leaves
-    all markup as it is and makes the character data 538 characters longer (nine declarations inside the sentence). -/
-theorem fix_finding_splice_in_text :
-    (splitMarkup false (fixXmlPart w2)).1 = (splitMarkup false w2).1 ∧
-    (splitMarkup false w2).2.length = 12 ∧ (splitMarkup false (fixXmlPart w2)).2.length = 12 + 538 := by
+/-- (was known finding KF-C05-2, repaired in 4cb8050) in `w2` — declarations separated by newlines, the words
+    ` xmlns:x` in a paragraph — the character data is no longer touched: all nine insertions go into the root tag. -/
+theorem fix_w2_text_untouched :
+    (splitMarkup false (fixXmlPart w2)).2 = (splitMarkup false w2).2 ∧
+    (rootAttrNames (fixXmlPart w2)).Nodup ∧ (rootAttrNames (fixXmlPart w2)).length = 1 + 9 := by
   decide +kernel
 
 /-- a part that satisfies `fix_identity`: all nine prefixes declared after a blank -/
 def w3 : Str := [60, 63, 120, 109, 108, 32, 118, 101, 114, 115, 105, 111, 110, 61, 39, 49, 46, 48, 39, 32, 101, 110, 99, 111, 100, 105, 110, 103, 61, 39, 85, 84, 70, 45, 56, 39, 63, 62, 10, 60, 111, 58, 100, 111, 99, 117, 109, 101, 110, 116, 45, 99, 111, 110, 116, 101, 110, 116, 32, 120, 109, 108, 110, 115, 58, 111, 61, 34, 117, 114, 110, 58, 111, 97, 115, 105, 115, 58, 110, 97, 109, 101, 115, 58, 116, 99, 58, 111, 112, 101, 110, 100, 111, 99, 117, 109, 101, 110, 116, 58, 120, 109, 108, 110, 115, 58, 111, 102, 102, 105, 99, 101, 58, 49, 46, 48, 34, 32, 120, 109, 108, 110, 115, 58, 109, 101, 116, 97, 61, 34, 109, 34, 32, 120, 109, 108, 110, 115, 58, 99, 111, 110, 102, 105, 103, 61, 34, 99, 34, 32, 120, 109, 108, 110, 115, 58, 100, 99, 61, 34, 100, 34, 32, 120, 109, 108, 110, 115, 58, 115, 116, 121, 108, 101, 61, 34, 115, 34, 32, 120, 109, 108, 110, 115, 58, 115, 118, 103, 61, 34, 118, 34, 32, 120, 109, 108, 110, 115, 58, 102, 111, 61, 34, 102, 34, 32, 120, 109, 108, 110, 115, 58, 100, 114, 97, 119, 61, 34, 114, 34, 32, 120, 109, 108, 110, 115, 58, 116, 97, 98, 108, 101, 61, 34, 116, 34, 32, 120, 109, 108, 110, 115, 58, 102, 111, 114, 109, 61, 34, 103, 34, 62, 60, 111, 58, 98, 111, 100, 121, 47, 62, 60, 47, 111, 58, 100, 111, 99, 117, 109, 101, 110, 116, 45, 99, 111, 110, 116, 101, 110, 116, 62]
 
 /-- non-vacuity of `fix_identity` -/
-example : DeclaresWithSpace w3 := by decide +kernel
+example : DeclaresInRoot w3 := by
+  intro e he p hp
+  have : findRootEnd w3 0 = some 58 := by decide +kernel
+  rw [this] at he; cases he
+  revert p; decide +kernel
 
 /-! ### sections over SAX event streams -/
 
@@ -148,29 +158,47 @@ theorem sections_preserved_partial (st : St) (q : QName) (a : List (QName × Str
     (hnt : noTrigF kids = true) (hfr : fresh st.names (regF (some (qOfSec s)) kids) = true)
     (hc : canonB kids = true) (he : hasElemF kids = true) (hh : huF kids = kids) :
     ∃ st', run st (evN (.elem q a kids)) = some st' ∧ st'.doc.get s = kids ∧ canonTF [] (st'.doc.get s) = kids ∧
-      Idle st' ∧ st'.fix = [] := by
-  refine ⟨afterSection st s kids, run_section st q a kids s hi hf hr hnt hfr, ?_, ?_, afterSection_idle st s kids hi,
-    by simpa [afterSection] using hf⟩
-  · simp [afterSection, hempty, secContent, he, mergeTF_canon_id kids hc]
-  · simp only [afterSection, Doc.get_app_same, hempty, appF_nil_left, secContent, he, if_true, mergeTF_canon_id kids hc]
+      st'.doc.sattrs s = putAttrs (st.doc.sattrs s) a ∧ Idle st' ∧ st'.fix = [] := by
+  have hg : (st.doc.putAttrs s a).get s = st.doc.get s := by cases s <;> rfl
+  refine ⟨afterSection st s a kids, run_section st q a kids s hi hf hr hnt hfr, ?_, ?_, ?_,
+    afterSection_idle st s a kids hi, by simpa [afterSection] using hf⟩
+  · simp [afterSection, hg, hempty, secContent, he, mergeTF_canon_id kids hc]
+  · simp only [afterSection, Doc.get_app_same, hg, hempty, appF_nil_left, secContent, he, if_true,
+      mergeTF_canon_id kids hc]
     rw [canonTF_eq_merge, hh, mergeTF_canon_id kids hc]
+  · cases s <;> simp [afterSection, Doc.app, Doc.set, Doc.putAttrs]
 
 /-- the other sections are not touched by it -/
 theorem other_sections_untouched (st : St) (q : QName) (a : List (QName × Str)) (kids : Forest) (s s' : Sec)
     (hi : Idle st) (hf : st.fix = []) (hr : route st.stylesPart q = some s) (hnt : noTrigF kids = true)
     (hfr : fresh st.names (regF (some (qOfSec s)) kids) = true) (hne : s' ≠ s) :
-    ∃ st', run st (evN (.elem q a kids)) = some st' ∧ st'.doc.get s' = st.doc.get s' :=
-  ⟨afterSection st s kids, run_section st q a kids s hi hf hr hnt hfr, by simp [afterSection, Doc.get_app_other _ _ _ _ hne]⟩
+    ∃ st', run st (evN (.elem q a kids)) = some st' ∧ st'.doc.get s' = st.doc.get s' := by
+  have hg : (st.doc.putAttrs s a).get s' = st.doc.get s' := by cases s' <;> rfl
+  exact ⟨afterSection st s a kids, run_section st q a kids s hi hf hr hnt hfr,
+    by simp [afterSection, Doc.get_app_other _ _ _ _ hne, hg]⟩
 
-/-- **known finding KF-C05-9 (section attributes), proved for every state and every section element**: the
-    attributes on office:body, office:styles, office:meta … never reach the document — the handler does not look at
-    them when the tag is a section element. -/
-theorem finding_section_attributes (st : St) (q : QName) (a a' : List (QName × Str)) (h : isTrigger q = true) :
-    stepStart st q a = stepStart st q a' := by
-  unfold stepStart
-  cases hs : secOfTrigger q with
-  | none => simp [isTrigger, hs] at h
-  | some s => simp [hs]
+theorem setA_fresh (k : QName) (v : Str) : (cur : List (QName × Str)) → k ∉ cur.map (·.1) → setA k v cur = cur ++ [(k, v)]
+  | [], _ => rfl
+  | (q, w) :: r, h => by
+    have h1 : q ≠ k := by intro e; apply h; simp [e]
+    have h2 : k ∉ r.map (·.1) := by intro e; apply h; simp [e]
+    simp [setA, h1, setA_fresh k v r h2]
+
+theorem putAttrs_fresh : (a cur : List (QName × Str)) → ((cur ++ a).map (·.1)).Nodup → putAttrs cur a = cur ++ a
+  | [], cur, _ => by simp [putAttrs]
+  | (k, v) :: r, cur, h => by
+    have hk : k ∉ cur.map (·.1) := by
+      intro e
+      simp only [List.map_append, List.map_cons, List.nodup_append] at h
+      exact h.2.2 k e k (by simp) rfl
+    rw [putAttrs, setA_fresh k v cur hk, putAttrs_fresh r (cur ++ [(k, v)]) (by simpa [List.append_assoc] using h)]
+    simp
+
+/-- (was known finding KF-C05-9, repaired in 2a48e47) **the attributes of a section element are kept**: a section
+    object that has no attributes yet ends up with exactly the attributes of the file, in order (SAX delivers every
+    attribute name once) -/
+theorem section_attributes_kept (a : List (QName × Str)) (h : (a.map (·.1)).Nodup) : putAttrs [] a = a := by
+  simpa using putAttrs_fresh a [] (by simpa using h)
 
 /-- content.xml `<office:font-face-decls><u:f/></office:font-face-decls><office:body><u:a/></office:body>` -/
 def contentWithFonts : Node :=
